@@ -103,6 +103,14 @@ func init() {
 		p.assert(fr.caller, a[0].(string), p.boolTerm(a[1]))
 		return nil
 	})
+	// Observe: an obligation that does not constrain the continuation of the path
+	reg("Observe", func(fr *frame, a []value) value {
+		p := fr.i.p
+		p.observing = true
+		p.assert(fr.caller, a[0].(string), p.boolTerm(a[1]))
+		p.observing = false
+		return nil
+	})
 	reg("Reach", func(fr *frame, a []value) value {
 		fr.i.p.res.Reached[a[0].(string)] = true
 		return nil
